@@ -63,7 +63,12 @@ class SyncProp(Prop):
                         f["name"] = "pkg_%s_%d/%s" % (k, j, tname)
         run.dist["package_layout"][pkg] += 1
         run.dist["truth"][cfg["truth"]] += 1
-        return {"cfg": cfg, "via_cli": r.random() < 0.4}
+        via_cli = r.random() < 0.4
+        # through the API the truth is named by `truth_file`: it need not be the first file listed for its kind
+        if not via_cli and len(cfg["kinds"][cfg["truth"]]["files"]) > 1 and r.random() < 0.5:
+            cfg["truth_last"] = True
+        run.dist["truth_listed_last"][bool(cfg.get("truth_last"))] += 1
+        return {"cfg": cfg, "via_cli": via_cli}
 
     def nontrivial(self, c):
         return any(f["prestate"] not in ("truth", "agreeing") for kd in c["cfg"]["kinds"].values() for f in kd["files"])
@@ -269,9 +274,14 @@ class C11(SyncProp):
                     rr = random.Random(r.randrange(1 << 30))
                     long_doc = 'def load(path):\n    """\n    Load it.\n\n    %s"""\n    return path\n' % ("w" * rr.randint(96, 112))
                     shadow = ["class %s(object):\n    attr: int = 1\n" % kd["name"].split(".")[-1]] if k == "class" and "." in kd["name"] else []
-                    before = "".join(rr.choice(projgen.OTHER_SRC + shadow + shadow + ["X: int = 3\n", "PAGE_BREAK = '\x0c'\n", "class Other(object):\n    def method_name(self, a=1):\n        return a\n"]) for _ in range(rr.randint(0, 2)))
+                    # (signatures of every shape: positional-only, keyword-only, star arguments, async, decorated)
+                    sigs = ["def scale(value, factor=2, /, offset=0):\n    return value\n",
+                            "class Helper(object):\n    def clamp(self, lo, /, hi=1, *rest, key=None, **kw):\n        return lo\n",
+                            "async def fetch(url, /, *, timeout=3):\n    return url\n",
+                            "import functools\n\n\n@functools.lru_cache(maxsize=None)\ndef cached(n, /):\n    return n\n"]
+                    before = "".join(rr.choice(projgen.OTHER_SRC + sigs + shadow + shadow + ["X: int = 3\n", "PAGE_BREAK = '\x0c'\n", "class Other(object):\n    def method_name(self, a=1):\n        return a\n"]) for _ in range(rr.randint(0, 2)))
                     simple = kd["name"].split(".")[0]
-                    after = "".join(rr.choice(projgen.OTHER_SRC[1:] + ["def later(value, a=2):\n    return value\n", long_doc] + (["%s = register(%s)\n" % (simple, simple)] if k == "class" and f["prestate"] in ("stale", "near", "agreeing") else [])) for _ in range(rr.randint(0, 2)))
+                    after = "".join(rr.choice(projgen.OTHER_SRC[1:] + ["def later(value, a=2):\n    return value\n", long_doc] + sigs[:3] + (["%s = register(%s)\n" % (simple, simple)] if k == "class" and f["prestate"] in ("stale", "near", "agreeing") else [])) for _ in range(rr.randint(0, 2)))
                     nl = "" if f["content"].endswith("\n") else "\n"
                     new = before + f["content"] + nl + after
                     if r.random() < 0.3:
